@@ -1,5 +1,6 @@
 import KcpVerif.Model.Kcp
 import KcpVerif.Lemmas.KcpLive
+import KcpVerif.Lemmas.KcpProbe
 /-! C03 — a stalled reader throttles the sender and transfer resumes afterwards. -/
 namespace KcpVerif.Props
 open KcpVerif KcpVerif.Gen KcpVerif.Kcp
@@ -317,5 +318,52 @@ theorem C03_no_ack_without_store (regular : Bool) (conv : U32) (cmd frg : BitVec
     · rw [hk]; exact hp.2.2.2.2.1
     · rw [hk]; exact hp.2.2.2.2.2
     · rw [hk]; exact hp.1
+
+/-! ### `probe_armed` at the level of `flush` and of reachable states -/
+
+/-- With `rmt_wnd = 0`, an armed probe timer that is due makes the SAME flush (either type) write a
+WASK header, multiplies `probe_wait` by 3/2 (capped, `nextProbeWait`) and re-arms the timer at
+`now + probe_wait`: probing never stops while the remote window is 0, whatever was lost. -/
+theorem C03_probe_wask_emitted (k : Kcp) (full : Bool) (now : U32) (h0 : k.rmt_wnd = 0) (h1 : k.probe_wait ≠ 0)
+    (h2 : itimediff now k.ts_probe ≥ 0) :
+    (flush k full now).k.probe_wait = nextProbeWait k.probe_wait ∧
+    (flush k full now).k.ts_probe = now + nextProbeWait k.probe_wait ∧
+    ((flush k full now).panic = false → ∃ pre post, (flush k full now).outs.flatten =
+      pre ++ encodeHdr k.conv (BitVec.ofNat 8 IKCP_CMD_WASK) 0 (wndUnused k) (flAck k).sc.ts (flAck k).sc.sn k.rcv_nxt 0
+        ++ post) :=
+  flush_wask k full now h0 h1 h2
+
+/-- `probe_wait ≤ IKCP_PROBE_LIMIT` (the hypothesis of `C03_probe_armed`) is kept by every operation
+with arbitrary arguments and holds in every state reachable from `NewKCP`. -/
+theorem C03_probe_wait_reachable (conv : U32) (ops : List Op) (k : Kcp) (op : Op) :
+    (k.probe_wait ≤ u32 IKCP_PROBE_LIMIT → (step k op).probe_wait ≤ u32 IKCP_PROBE_LIMIT) ∧
+    (run (Kcp.new conv) ops).probe_wait ≤ u32 IKCP_PROBE_LIMIT := by
+  have hfl : ∀ (k : Kcp) full now, k.probe_wait ≤ u32 IKCP_PROBE_LIMIT →
+      (flush k full now).k.probe_wait ≤ u32 IKCP_PROBE_LIMIT := by
+    intro k full now h
+    rcases flush_pw k full now with e | e | e | e
+    · rw [e]; simp only [u32, IKCP_PROBE_LIMIT]; decide
+    · rw [e]; simp only [u32, IKCP_PROBE_LIMIT, IKCP_PROBE_INIT]; decide
+    · rw [e]; exact (C03_nextProbeWait_bounds _ h).2
+    · rw [e]; exact h
+  have hstep : ∀ (k : Kcp) (op : Op), k.probe_wait ≤ u32 IKCP_PROBE_LIMIT →
+      (step k op).probe_wait ≤ u32 IKCP_PROBE_LIMIT := by
+    intro k op h
+    cases op with
+    | send b => show (send k b).k.probe_wait ≤ _; rw [send_pw]; exact h
+    | recv n => show (recv k n).k.probe_wait ≤ _; rw [recv_pw]; exact h
+    | input d r a now => exact input_pw (fun w => w ≤ u32 IKCP_PROBE_LIMIT) hfl k d r a now h
+    | flush full now => exact hfl k full now h
+    | update now => exact update_pw (fun w => w ≤ u32 IKCP_PROBE_LIMIT) hfl k now h
+    | setMtu m => show (setMtu k m).1.probe_wait ≤ _; rw [setMtu_pw]; exact h
+    | noDelay nd iv rs nc => show (noDelay k nd iv rs nc).probe_wait ≤ _; rw [noDelay_pw]; exact h
+    | wndSize s r => show (wndSize k s r).probe_wait ≤ _; rw [wndSize_pw]; exact h
+  refine ⟨hstep k op, ?_⟩
+  have h0 : (Kcp.new conv).probe_wait ≤ u32 IKCP_PROBE_LIMIT := by
+    unfold Kcp.new; simp only [u32, IKCP_PROBE_LIMIT]; decide
+  generalize Kcp.new conv = k0 at h0
+  induction ops generalizing k0 with
+  | nil => exact h0
+  | cons op rest ih => rw [run_cons]; exact ih _ (hstep k0 op h0)
 
 end KcpVerif.Props
